@@ -17,7 +17,7 @@ import UF.Gen.Facts
   rcode and type fields are modelled on ASCII only (`ı`, `ſ`, `K` fold to ASCII letters); the
   driver answers `ood` when one of these two fields contains a byte ≥ 0x80.
 -/
-namespace UF
+namespace UF.H
 open Bytes
 
 /-- `strings.SplitN s sep n` for a one-byte separator (`n = 0` gives nil). -/
@@ -267,4 +267,4 @@ def dnsRewriteInDomain (s : Bytes) : Bool :=
   | [p0, p1, _] => isAscii p0 && isAscii p1
   | _ => true
 
-end UF
+end UF.H
